@@ -261,7 +261,7 @@ static void hist_case(Case& cs, const Profile& pf) {
   size_t align_len = 0; int align_variant = 0;
   if (pf.align_mode) {
     align_len = (size_t)c.range(0, 2250);     // first choice = sharding dimension
-    align_variant = (int)c.range(0, 5);       // which member ends the first record
+    align_variant = (int)c.range(0, 7);       // which member ends the first record
     M::BlockP b0;
     b0.sp.hints.qr = gen::QR_ALL; b0.sp.hints.sig = gen::SIG_ALL; b0.sp.hints.rr = 3; b0.sp.hints.other = 3;
     b0.sp.max_items = 10000;
@@ -390,6 +390,9 @@ static void hist_case(Case& cs, const Profile& pf) {
               case 2: f[M::Q_QNAME] = M::Val::Bytes(filler); f[M::Q_RTT] = M::Val::Int((M::i128)INT64_MIN); break;         // 9-byte integer last
               case 3: f[M::Q_QNAME] = M::Val::Bytes(filler); f[M::Q_HOPLIMIT] = M::Val::Int(24); f[M::Q_QSIZE] = M::Val::Int(24); f[M::Q_RSIZE] = M::Val::Int(0x100000000ll); break;
               case 4: f[M::Q_QNAME] = M::Val::Bytes(filler); f[M::Q_CLIENT_PORT] = M::Val::Int(65535); f[M::Q_DELAY] = M::Val::Int(-25); break;
+              // the filler sits in the client address (key 1): the record - and with it the block - ends with a narrow integer in its longest form
+              case 6: f[M::Q_CLIENT_IP] = M::Val::Bytes(filler); break;                                                  // transaction id (uint16, 3 bytes) last
+              case 7: f[M::Q_CLIENT_IP] = M::Val::Bytes(filler); f[M::Q_HOPLIMIT] = M::Val::Int(200); break;             // hop limit (uint8, 2 bytes) last
               default: f[M::Q_QNAME] = M::Val::Bytes(filler); f[M::Q_CC] = M::Val::Text(std::string(24, 'c')); break;      // 24-byte text last
             }
           }
@@ -751,7 +754,7 @@ static Profile P_C02() { Profile p; p.name = "c02"; p.oracles = O_C02; p.w_ext =
 static Profile P_C04() { Profile p; p.name = "c04"; p.oracles = O_C04; p.pres_fixed = 7; p.w_write = 1; p.w_ext = 2; p.ext_generic_only = true; p.max_sets = 3; p.w_setactive = 2; p.any_tps = false; p.empty_structs = false; return p; }
 static Profile P_C10() { Profile p = P_C02(); p.name = "c10"; p.oracles = O_C10; p.big_strings = true; return p; }
 static Profile P_C11() { Profile p; p.name = "c11"; p.oracles = O_C11; p.small_blocks = true; p.hint_modes = false; p.w_write = 1; p.ops_per_size = 2; return p; }
-static Profile P_C12() { Profile p; p.name = "c12"; p.oracles = O_C12; p.small_blocks = true; p.min_sets = 2; p.w_setactive = 3; p.w_counters = 2; p.w_aec = 6; p.w_mm = 5; p.w_write = 2; p.ops_per_size = 2; p.any_tps = false; return p; }
+static Profile P_C12() { Profile p; p.name = "c12"; p.oracles = O_C12; p.w_ext = 1; p.small_blocks = true; p.min_sets = 2; p.w_setactive = 3; p.w_counters = 2; p.w_aec = 6; p.w_mm = 5; p.w_write = 2; p.ops_per_size = 2; p.any_tps = false; return p; }
 static Profile P_C12E() { Profile p = P_C12(); p.name = "c12enum"; p.enum_mode = true; return p; }
 static Profile P_ALIGN(const char* n, unsigned o) { Profile p; p.name = n; p.oracles = o; p.align_mode = true; return p; }
 static Profile P_C13() { Profile p; p.name = "c13"; p.oracles = O_C13; p.w_retune = 1; p.w_rotate = 5; p.w_addbp = 2; p.w_setactive = 2; p.w_ext = 1; p.small_blocks = true; return p; }
@@ -763,7 +766,7 @@ static Profile P_C17() { Profile p; p.name = "c17"; p.oracles = O_C17 | O_C01; p
 
 int main(int argc, char** argv) {
   Registry r;
-  static Profile ps[] = {P_ALIGN("c01align", O_C01), P_ALIGN("c02align", O_C02), P_ALIGN("c10align", O_C10), P_ALIGN("c13align", O_C13), P_C01(), P_C01BIG(), P_C01HUGE(), P_C02(), P_C04(), P_C10(), P_C11(), P_C12(), P_C12E(), P_C13(), P_C09(), P_C14(), P_C17()};
+  static Profile ps[] = {P_ALIGN("c01align", O_C01), P_ALIGN("c02align", O_C02), P_ALIGN("c10align", O_C10), P_ALIGN("c13align", O_C13), P_ALIGN("c15align", O_C02), P_C01(), P_C01BIG(), P_C01HUGE(), P_C02(), P_C04(), P_C10(), P_C11(), P_C12(), P_C12E(), P_C13(), P_C09(), P_C14(), P_C17()};
   for (auto& p : ps) { const Profile* pp = &p; r.add(std::string("hist_") + p.name, [pp](Case& cs) { hist_case(cs, *pp); }); }
   return harness_main(argc, argv, r);
 }
